@@ -40,12 +40,19 @@ def bounded(tier, seed):
         nt += abs(math.sin(c[0])) > 1e-3
         for sig, msg in T.check_case(c):
             viol.setdefault(sig, {"what": msg, "signature": sig, "input": {"check": "constructed-dihedral", "case": list(c)}, "relates": "calculate_torsion_angle"})
-    return [{"name": "constructed-dihedral", "evaluations": ev, "distinct_nontrivial": nt, "violations": list(viol.values()),
+    planar = run_cases("exact-planar", T.planar_cases(), T.check_planar, lambda c: True,
+                       "exactly coplanar cis / trans arrangements on integer and 3-decimal coordinates in the three coordinate planes (sine term exactly 0.0): expected 0 / pi",
+                       "144 point sets", sig=lambda c: f"{c[0]}:{c[1][3]}", relates="calculate_torsion_angle")
+    return [planar, {"name": "constructed-dihedral", "evaluations": ev, "distinct_nontrivial": nt, "violations": list(viol.values()),
              "samples": [{"phi": cases[0][0], "seed": cases[0][1]}],
              "rule": "phi uniform in (-pi, pi] plus boundary values, bond lengths 0.8-2.5, bond angles 20-160 deg, random rotation and translation (+-300 A); non-trivial = |sin phi| > 1e-3",
              "bound": f"{len(cases)} constructions"}]
 
 
 def replay(inp):
-    errs = T.check_case(tuple(inp["case"]))
+    if inp.get("check") == "exact-planar":
+        c = inp["case"]
+        errs = T.check_planar((c[0], [tuple(p) for p in c[1]]))
+    else:
+        errs = T.check_case(tuple(inp["case"]))
     return {"fails": bool(errs), "errors": errs[:3]}
